@@ -237,7 +237,7 @@ def run_check(prop, args, wdir):
     meta = META.get(prop, {})
     budget = float(os.environ.get("VERIF_BUDGET_S", meta.get("quick_s", 25) if tier == "quick" else meta.get("thorough_s", 600)))
     workers = int(os.environ.get("VERIF_WORKERS", "16"))
-    shrink_budget = 45 if tier == "quick" else 240
+    shrink_budget = float(os.environ.get("VERIF_SHRINK_S", 45 if tier == "quick" else 240))
 
     # determinism self-test (small in quick, larger in thorough)
     st = selftest(binp, wdir, prop, seed, 12 if tier == "quick" else 40, [1, 4] if tier == "quick" else [1, 4, 16, 2])
